@@ -29,7 +29,8 @@ def build_batch(spec, topic, partition, base, now_ms=1_600_000_000_000):
     kind = spec.get("kind", "data")
     pid = spec.get("pid", -1)
     if kind in ("commit", "abort"):
-        raw = RR.encode_control_batch(base, pid, spec.get("epoch", 0), kind == "commit", timestamp=now_ms)
+        raw = RR.encode_control_batch(base, pid, spec.get("epoch", 0), kind == "commit", timestamp=now_ms,
+                                      key_extra=spec.get("key_extra", b""))
         return (None if spec.get("gone") else raw), base + 1
     n = spec["n"]
     deltas = spec.get("deltas") or []
@@ -225,7 +226,7 @@ async def _main(case, obs, loop, net):
     c.schedule(env)
     kw = dict(bootstrap_servers=c.bootstrap(), group_id=cfg.get("group_id"),
               session_timeout_ms=cfg.get("session_timeout_ms", 3000), heartbeat_interval_ms=cfg.get("heartbeat_interval_ms", 300),
-              auto_offset_reset=cfg.get("auto_offset_reset", "earliest"), enable_auto_commit=False,
+              auto_offset_reset=cfg.get("auto_offset_reset_as", cfg.get("auto_offset_reset", "earliest")), enable_auto_commit=False,
               isolation_level=cfg.get("isolation", "read_uncommitted"), check_crcs=cfg.get("check_crcs", True),
               max_partition_fetch_bytes=cfg.get("max_partition_fetch_bytes", 1048576),
               fetch_max_wait_ms=cfg.get("fetch_max_wait_ms", 100), fetch_max_bytes=cfg.get("fetch_max_bytes", 52428800),
